@@ -65,18 +65,18 @@ def main(tier):
             hist.insert(rng.randint(0, len(hist)), "freeze")
         if a is not None and rng.random() < 0.8:
             hist.insert(0, "calibrate")
-        cases.append({"seed": ck.seed * 1000 + i, "dtype": dtype, "weights": w, "activations": a, "tree": tree, "input": inp, "history": hist})
+        cases.append({"seed": ck.seed * 1000 + i, "dtype": dtype, "weights": w, "activations": a, "tree": tree, "input": inp, "history": hist, "optimizer": "clip" if rng.random() < 0.3 else None})
     res = ck.impl("life", {"cases": cases}, timeout=3000)
     if isinstance(res, dict):
         ck.violation("implementation worker crashed: " + res.get("stderr", "")[-300:], {"stderr": res.get("stderr")})
         ck.finish("coqc GenMod.v TieMod.v C09.v")
     coq_cases = []
     for c, r in zip(cases, res):
-        cfg = {k: c[k] for k in ("seed", "dtype", "weights", "activations", "history", "input", "tree")}
+        cfg = {k: c[k] for k in ("seed", "dtype", "weights", "activations", "history", "input", "tree", "optimizer")}
         if not r["ok"]:
             ck.violation(f"building / quantizing the model raised {r['exn']}: {r.get('msg')}", {"case": cfg, "exception": r})
             continue
-        ck.count("dtype", c["dtype"]); ck.count("weights", c["weights"]); ck.count("activations", c["activations"])
+        ck.count("dtype", c["dtype"]); ck.count("weights", c["weights"]); ck.count("activations", c["activations"]); ck.count("optimizer", c["optimizer"] or "default")
         specs = dict(named_specs(c["tree"]))
         classes = [r["init_out"]]
         observed = []
